@@ -203,12 +203,15 @@ func (r *replication) replicate(c *conn, req *appendReq) error {
 		}()
 
 		drainResps := func() error {
+			// keeps consuming after an error: when it returns, the writer
+			// goroutine has closed resultCh and no longer touches c
+			var err error
 			for range resultCh {
-				if err := c.readResp(resp, r.deadline()); err != nil {
-					return err
+				if err == nil {
+					err = c.readResp(resp, r.deadline())
 				}
 			}
-			return nil
+			return err
 		}
 		drainRespsTimeout := func(timeout time.Duration) {
 			drained := make(chan error, 1)
